@@ -9,6 +9,7 @@ for qn,u in list(U.REGISTRY.items()):
     print('==',qn, 'paths',r.paths,'err',r.error, '%.2fs'%(time.time()-t))
     for o in r.obls: print('   %-40s %-8s %.3f %s L%d %s'%(o.name,o.verdict,o.seconds,o.backend,o.line,o.reason))
     print('   covers',r.covers,'canary',r.canary)
+    print('   slowest:',[(o.name,round(o.seconds,1)) for o in sorted(r.obls,key=lambda o:-o.seconds)[:4]])
     if r.failed or r.error:
         f,t,n=U.bmc_falsify(u); print('   BMC tried',t,'notes',n)
         for x in f: print('    ',x['obligation'],x['native'])
